@@ -231,6 +231,27 @@ def release_once(prog, res):
         pn = fn.nodes[par] if par is not None else None
         ok = pn is not None and pn["k"] == "bin" and pn["o"] in ("==", "<=", "<", "!=", ">") and \
             any(fn.const_val(c) == 0 for c in pn["c"])
+        if not ok:
+            # `count -= 1; if (count == 0) ...`: every path from the decrement to the function's exit passes a
+            # comparison of that count with zero
+            from cfg import reach_without
+            posd = elem_positions(fn)
+            pd = enclosing_elem(fn, i, posd)
+            tests = set()
+            for b in fn.blocks.values():
+                if b.cond is None:
+                    continue
+                for m in fn.subtree(b.cond):
+                    mn = fn.nodes[m]
+                    if mn["k"] == "bin" and mn["o"] in ("==", "<=", "<", "!=", ">") and any(fn.const_val(c) == 0 for c in mn["c"]):
+                        for c in mn["c"]:
+                            c0 = fn.strip(c)
+                            if fn.nodes[c0]["k"] == "mem":
+                                _r, p2 = fn.mempath(c0)
+                                if p2 == ["value", "fileno", "count"]:
+                                    tests.add((b.id, len(b.elems)))
+            if pd is not None and tests and not reach_without(fn, pd, (fn.exit, 0), tests):
+                ok = True
         if ok:
             stat.discharged += 1
         else:
